@@ -320,6 +320,33 @@ class _Script:
         self.reads = 0
 
 
+def _store_endptr(I, args, env):
+    """strtoul(s, &end, base) on a string that consists of the digits the lexer collected: the conversion consumes all of it, so *end is
+    the terminating NUL (pointers to scalars are transparent in engine I: the variable holds the pointee)."""
+    if len(args) > 1:
+        a = strip(args[1])
+        while a.get('kind') in ('ImplicitCastExpr', 'ParenExpr'):
+            a = children(a)[0]
+        if a.get('kind') == 'UnaryOperator' and a.get('opcode') == '&':
+            I.store(I.lval(children(a)[0], env), const(8, True, 0), env)
+
+
+def make_lexer(I, idx, ns):
+    """The lexer object as its own default constructor leaves it (members added later are picked up), with the input stream attached."""
+    lex_cls = ns + '::Lexer'
+    base = {'table': Obj(ns + '::Table', {}, 'table'), 'file': Obj('std::istream', {}, 'file'), 'lastChar': const(8, True, 0),
+            'identifier': ('str', ''), 'string': ('str', ''), 'value': const(32, False, 0), 'lastToken': const(32, True, 0),
+            'currentLineNumber': const(64, False, 0), 'currentCharNumber': const(64, False, 0), 'currentLine': ('str', '')}
+    try:
+        lex = I.construct(lex_cls, [], name='lexer')
+    except (AnalysisBroken, NeedSplit, Thrown):
+        return Obj(lex_cls, base, 'lexer')
+    for k, v in base.items():
+        if lex.fields.get(k) is None or k in ('file', 'table'):
+            lex.fields[k] = v
+    return lex
+
+
 def lexer_terminates(idx, ns, first_bytes, entry='getNextToken', budget=40):
     """Interpret <ns>::Lexer::<entry> repeatedly on the inputs  c . EOF^omega  for every byte c in first_bytes (two tokens each):
     returns [(byte, problem)] for inputs on which a loop does not finish or the lexer leaves the abstract domain."""
@@ -345,6 +372,7 @@ def lexer_terminates(idx, ns, first_bytes, entry='getNextToken', budget=40):
                      'isxdigit': s_ in '0123456789abcdefABCDEF' and s_ != ''}[name]
                 return const(32, True, 1 if r else 0)
             if kind == 'function' and name in ('strtoul', 'strtol', 'stoul'):
+                _store_endptr(I, args, env)
                 return IV(64, False, 0, (1 << 64) - 1)
             if kind == 'method' and name == 'get' and 'istream' in t and args:
                 script.reads += 1
@@ -370,9 +398,7 @@ def lexer_terminates(idx, ns, first_bytes, entry='getNextToken', budget=40):
                 return const(32, True, tokens.get('IDENTIFIER', 0)) if name == 'lookup' else None
             return NotImplemented
         I = ivinterp.Interp(idx, hooks, max_iter=budget)
-        lex = Obj(lex_cls, {'table': Obj(ns + '::Table', {}, 'table'), 'file': Obj('std::istream', {}, 'file'), 'lastChar': const(8, True, 0),
-                            'identifier': ('str', ''), 'string': ('str', ''), 'value': const(32, False, 0), 'lastToken': const(32, True, 0),
-                            'currentLineNumber': const(64, False, 0), 'currentCharNumber': const(64, False, 0), 'currentLine': ('str', '')}, 'lexer')
+        lex = make_lexer(I, idx, ns)
         try:
             # prime the first character as openFile/loadBuffer do, then read tokens until END_OF_FILE (at most 4)
             rc = [m for m in idx.record(lex_cls).methods if m.name == 'readChar'][0]
@@ -395,6 +421,147 @@ def lexer_terminates(idx, ns, first_bytes, entry='getNextToken', budget=40):
         except NeedSplit as e:
             raise AnalysisBroken('lexer interpretation not concrete: %s' % e)
     return problems
+
+
+# ------------------------------------------------------------------------------------------------
+# diagnostic handlers are total (an exception or a wild read inside `catch` turns a clean rejection into a crash)
+# ------------------------------------------------------------------------------------------------
+def _lexer_hooks(tokens, script, budget):
+    def hooks(I, n, kind, name, did, obj, args, env):
+        t = (dqt(obj) + ' ' + qt(obj)) if obj is not None else ''
+        if kind == 'function' and name in ('isspace', 'isalpha', 'isalnum', 'isdigit', 'isxdigit'):
+            v = I.expr(args[0], env)
+            if not (isinstance(v, IV) and v.concrete()):
+                raise NeedSplit(None, 'character class of a non-concrete value')
+            ch = v.lo & 0xFF if v.lo >= 0 else -1
+            s_ = chr(ch) if 0 <= ch < 128 else ''
+            r = {'isspace': s_ in ' \t\n\r\v\f' and s_ != '', 'isalpha': s_.isalpha(), 'isalnum': s_.isalnum(), 'isdigit': s_.isdigit(),
+                 'isxdigit': s_ in '0123456789abcdefABCDEF' and s_ != ''}[name]
+            return const(32, True, 1 if r else 0)
+        if kind == 'function' and name in ('strtoul', 'strtol', 'stoul'):
+            _store_endptr(I, args, env)
+            return const(64, False, 7)
+        if kind == 'method' and name == 'get' and 'istream' in t and args:
+            script.reads += 1
+            if script.reads > budget:
+                raise Thrown('READ-BUDGET')
+            lv = I.lval(args[0], env)
+            if script.chars:
+                ch = script.chars.pop(0)
+                I.store(lv, const(8, True, ch if ch < 128 else ch - 256), env)
+                script.eof = False
+            else:
+                script.eof = True
+            return None
+        if kind == 'method' and name == 'eof':
+            return const(1, False, 1 if getattr(script, 'eof', False) else 0)
+        if kind == 'method' and name in ('close', 'is_open'):
+            return const(1, False, 1)
+        if n['kind'] == 'CXXOperatorCallExpr' and name in ('operator->', 'operator*') and 'unique_ptr' in (qt(args[0]) + dqt(args[0])):
+            return I.expr(args[0], env)
+        if kind == 'method' and name == 'get' and 'unique_ptr' in t:
+            return I.expr(obj, env)
+        if kind == 'method' and name in ('lookup', 'insert') and 'Table' in t:
+            return const(32, True, tokens.get('IDENTIFIER', 0)) if name == 'lookup' else None
+        if kind == 'method' and name == 'what' and obj is not None:
+            return ('str', 'message')
+        return NotImplemented
+    return hooks
+
+
+def handler_sites(idx, func):
+    """(catch statement, exception variable, body) of the handlers of `func` that catch the repository's located error type."""
+    out = []
+    for n in walk(func.body):
+        if n.get('kind') == 'CXXCatchStmt':
+            ch = [c for c in n.get('inner', []) if c]
+            var = next((c for c in ch if c.get('kind') == 'VarDecl'), None)
+            body = next((c for c in ch if c.get('kind') == 'CompoundStmt'), None)
+            if var is not None and body is not None and 'hexutil::Error' in (qt(var) + ' ' + dqt(var)):
+                out.append((n, var, body))
+    return out
+
+
+HANDLER_SCRIPTS = {
+    # the sources differ in where the lexer is when it reaches the end of the input and in how the lines ended (newline, comment, nothing)
+    'hexasm': ['BR foo', 'BR foo\n', '# c\nBR foo\n', '# c\nBR foo', 'BR foo\n# c\n', '\nLDAC', 'BR foo # c', 'OPR\n\n'],
+    'xcmp': ['x', 'x\n', '| c\nx\n', '| c\nx', 'x\n| c\n', '| a\n| b\nx\ny\n', 'x | c', '\nx\n\n'],
+}
+
+
+def handlers_total(idx, ns, func, lexer_of, budget=400):
+    """Run the lexer of namespace `ns` (engine I, concrete scripts) to the end of each source in HANDLER_SCRIPTS, remembering the location of
+    every token; then interpret every located-error handler of `func` with an error at each remembered location (and with an error without
+    location).  Yields (script, location, problem or None, detail).  `lexer_of(env, lex)` binds the lexer object into the handler's environment."""
+    lex_cls = ns + '::Lexer'
+    tokens = idx.enum(ns + '::Token')
+    sites = handler_sites(idx, func)
+    if not sites:
+        raise AnalysisBroken('%s: no handler for hexutil::Error found' % func.qname)
+    gnt = idx.func(lex_cls + '::getNextToken')
+    gloc = idx.func(lex_cls + '::getLocation')
+    rc = [m for m in idx.record(lex_cls).methods if m.name == 'readChar'][0]
+    for text in HANDLER_SCRIPTS[ns]:
+        script = _Script([ord(c) for c in text])
+        I = ivinterp.Interp(idx, _lexer_hooks(tokens, script, budget), max_iter=budget)
+        lex = make_lexer(I, idx, ns)
+        locs = []
+        try:
+            I.invoke(rc, lex, [])
+            for _ in range(len(text) + 2):
+                tk = I.invoke(gnt, lex, [])
+                loc = I.invoke(gloc, lex, [])
+                locs.append(loc)
+                if isinstance(tk, IV) and tk.concrete() and tk.lo == tokens.get('END_OF_FILE'):
+                    break
+        except Thrown as e:
+            pass        # a lexical error: the handler runs in the state the lexer was left in, with the last location
+        except NeedSplit as e:
+            raise AnalysisBroken('lexer interpretation not concrete on %r: %s' % (text, e))
+        seen = set()
+        cases = []
+        for loc in locs:
+            k = tuple(sorted((f, v.lo) for f, v in loc.fields.items() if isinstance(v, IV) and v.concrete()))
+            if k not in seen:
+                seen.add(k)
+                cases.append(loc)
+        cases.append(None)
+        for loc in cases:
+            for cst, var, body in sites:
+                err = I.construct('hexutil::Error', [loc, ('str', 'message')] if loc is not None else [('str', 'message')], name='error')
+                env = {'this': None, 'locals': {var['id']: err}}
+                lexer_of(env, lex, func)
+                n0 = len(I.ub)
+                problem = None
+                try:
+                    I.stmt(body, env)
+                except ivinterp._Return:
+                    pass
+                except Thrown as e:
+                    if str(e.what).startswith(('undefined behaviour', 'out-of-range', 'null pointer')):
+                        problem = 'undefined behaviour while printing the diagnostic: %s (%s)' % (e.what, I.ub[n0:][:1])
+                    else:
+                        problem = 'an exception (%s) leaves the handler: std::terminate aborts the process instead of the clean rejection' % (e.what,)
+                except NeedSplit as e:
+                    raise AnalysisBroken('handler interpretation not concrete on %r: %s' % (text, e))
+                bad = [u for u in I.ub[n0:]]
+                if problem is None and bad:
+                    problem = 'undefined behaviour while printing the diagnostic: %s' % bad[:2]
+                where = 'no location' if loc is None else 'line %s col %s' % tuple(getattr(loc.fields.get(k), 'lo', '?') for k in ('line', 'position'))
+                yield text, where, problem, pos(cst)
+
+
+def rule_handlers(rep, rid, idx, ns, func, lexer_of, floor=20):
+    rep.rule(rid, 'the diagnostic handlers are total: with the lexer in the state it reaches at the end of each of a set of small sources (lines '
+             'ended by a newline, by a comment, by nothing; empty lines; comment-only lines) and an error located at any token of the source '
+             '(or without location), the catch block of %s for hexutil::Error runs to its return without an exception leaving it '
+             '(std::terminate) and without an out-of-range access' % func.qname, floor=floor)
+    try:
+        for text, where, problem, at in handlers_total(idx, ns, func, lexer_of):
+            rep.add(rid, 'handler:%r:%s' % (text, where), problem is None, at + ' ' + func.qname,
+                    ('source %r, error at %s: %s' % (text, where, problem)) if problem else 'handler returns', nontrivial=problem is not None or where != 'no location')
+    except AnalysisBroken as e:
+        rep.undecided(rid, 'handler', 'cannot interpret: %s' % e, pos(func.node) + ' ' + func.qname)
 
 
 # ------------------------------------------------------------------------------------------------
@@ -510,6 +677,7 @@ def lexer_number(idx, ns, lo, hi):
                  'isxdigit': s_ in '0123456789abcdefABCDEF' and s_ != ''}[name]
             return const(32, True, 1 if r else 0)
         if kind == 'function' and name in ('strtoul', 'strtoull', 'stoul', 'stoull'):
+            _store_endptr(I, args, env)
             return N
         if kind == 'method' and name == 'get' and 'istream' in t and args:
             lv = I.lval(args[0], env)
@@ -531,9 +699,7 @@ def lexer_number(idx, ns, lo, hi):
             return const(32, True, tokens.get('IDENTIFIER', 0)) if name == 'lookup' else None
         return NotImplemented
     I = ivinterp.Interp(idx, hooks, max_iter=40)
-    lex = Obj(lex_cls, {'table': Obj(ns + '::Table', {}, 'table'), 'file': Obj('std::istream', {}, 'file'), 'lastChar': const(8, True, 0),
-                        'identifier': ('str', ''), 'string': ('str', ''), 'value': const(32, False, 0), 'lastToken': const(32, True, 0),
-                        'currentLineNumber': const(64, False, 0), 'currentCharNumber': const(64, False, 0), 'currentLine': ('str', '')}, 'lexer')
+    lex = make_lexer(I, idx, ns)
     rc = [m for m in idx.record(lex_cls).methods if m.name == 'readChar'][0]
     f = idx.func(lex_cls + '::getNextToken')
     try:
